@@ -29,6 +29,14 @@ def writer_stream(suite):
     return {"name": suite, "gen": ["{bin}/writer", "gen", suite, "{seed}", "{tier}", "{stats}"],
             "go": ["{bin}/writer"], "lean": ["{lean}/writerdriver"]}
 
+def c08_bytes_differ(op, g, l):
+    """C08: on a well-nested program (mode carries the expected walk) the bytes must equal the pinned
+    reference layout computed by the Lean model; REF-MISMATCH means the model itself is inconsistent."""
+    if ",x=" not in op.split(" ", 1)[0] or "REF-" in l:
+        return False
+    gp, lp = g.split(" | "), l.split(" | ")
+    return len(gp) >= 2 and len(lp) >= 2 and gp[1] != lp[1]
+
 def writer_prop(pid, theorems, suites, extra=None):
     d = {
         "level": "proof",
@@ -71,7 +79,8 @@ PROPS = {
                                         "message tags below 2^16 and total sizes below 2^32 (MsgWF); float32 laws (FloatLaws)"]}),
     "C08": writer_prop("C08", ["type_codes", "fixed_width_big_endian", "string_layout", "varint_widths", "list_big_iff",
                                 "list_type_code", "msg_big_iff", "msg_table_sorted", "readable_by_library"], ["c08", "golden"],
-                       {"assumptions": ["partial: independence from the initial buffer content is checked by the wp:/wd/wr/wpool streams, not by a theorem"]}),
+                       {"diff_violation": c08_bytes_differ,
+                        "assumptions": ["partial: independence from the initial buffer content is checked by the wp:/wd/wr/wpool streams, not by a theorem"]}),
     "C12": writer_prop("C12", ["sticky_write", "sticky_element", "sticky_field", "sticky_end", "sticky_fieldAny", "sticky_begin",
                                 "sticky_queries", "fail_keeps_first", "fail_records", "free_safe", "after_free_sticky",
                                 "reset_clean", "closed_handle", "double_end"], ["c12"],
